@@ -208,7 +208,7 @@ def run_conv(rec, case):
 
 
 def plan(tier, seed):
-    per = 2500 if tier == 'thorough' else 75
+    per = 2500 if tier == 'thorough' else 220
     shards = []
     for pair in ('TT', 'AA', 'TA', 'AT'):
         for s in range(4):
